@@ -55,7 +55,20 @@ impl Srv {
             let t0 = Instant::now();
             loop {
                 if let Ok(Some(_)) = child.try_wait() { break; }
-                if ready.exists() && std::net::TcpStream::connect(("127.0.0.1", port)).is_ok() { return Srv { child, port, dir }; }
+                if ready.exists() && std::net::TcpStream::connect(("127.0.0.1", port)).is_ok() {
+                    // port race between harness processes: make sure it is OUR child that listens
+                    // (the VERIF PID hook answers the server's process id)
+                    let mut mine = false;
+                    if let Some(mut cl) = Client::connect(port) {
+                        let mut w = vec![];
+                        if let Some(p) = &o.password { V::cmd(&[b"AUTH", p.as_bytes()]).wire(&mut w); cl.send(&w); let _ = cl.read(3000); w.clear(); }
+                        V::cmd(&[b"VERIF", b"PID"]).wire(&mut w); cl.send(&w);
+                        if let Rd::Val(V::Int(pid)) = cl.read(3000) { mine = pid as u32 == child.id(); }
+                    }
+                    if mine { return Srv { child, port, dir }; }
+                    let _ = child.kill(); let _ = child.wait(); let _ = std::fs::remove_dir_all(&dir);
+                    break;
+                }
                 if t0.elapsed() > Duration::from_secs(8) { let _ = child.kill(); let _ = child.wait(); break; }
                 std::thread::sleep(Duration::from_millis(5));
             }
@@ -107,6 +120,12 @@ pub fn canon_reply(name: &[u8], v: V) -> V {
     let v = canon(v);
     match name {
         b"TTL" | b"PTTL" => match v { V::Int(n) if n > 0 => V::Int(1), x => x },
+        b"VERIF" => match v {
+            // INDEX rows: remaining times by sign only
+            V::Array(rows) => V::Array(rows.into_iter().map(|r| match r {
+                V::Array(mut f) if f.len() == 4 => { for k in 1..3 { if let V::Int(n) = f[k] { if n > 0 { f[k] = V::Int(1); } } } V::Array(f) }
+                x => x }).collect()),
+            x => x },
         b"SMEMBERS" | b"SUNION" | b"SINTER" | b"SDIFF" | b"KEYS" | b"HKEYS" | b"HVALS" | b"SPOP" | b"SRANDMEMBER" =>
             match v { V::Array(mut l) => { if l.iter().all(|x| matches!(x, V::Bulk(_))) { sort_bulks(&mut l); } V::Array(l) } x => x },
         b"HGETALL" => match v {
@@ -116,6 +135,10 @@ pub fn canon_reply(name: &[u8], v: V) -> V {
                 V::Array(pairs.into_iter().flat_map(|(k, v)| vec![k, v]).collect())
             }
             x => x },
+        // SSCAN fast path iterates the HashSet: sort the members (the slow path is sorted already)
+        b"SSCAN" => match v {
+            V::Array(mut l) if l.len() == 2 => { if let V::Array(m) = &mut l[1] { if m.iter().all(|x| matches!(x, V::Bulk(_))) { sort_bulks(m); } } V::Array(l) }
+            x => x },
         _ => v,
     }
 }
@@ -124,10 +147,10 @@ pub fn req_name(req: &V) -> Vec<u8> {
 }
 const RANDOM_CMDS: &[&[u8]] = &[b"RANDOMKEY", b"SPOP", b"SRANDMEMBER"];
 
-pub struct Runner { pub srv: Srv, pub conns: HashMap<i128, Client>, pub t0: Instant, pub logical: i128, pub drift_bad: bool, pub queues: HashMap<i128, Vec<Vec<u8>>> }
+pub struct Runner { pub srv: Srv, pub conns: HashMap<i128, Client>, pub t0: Instant, pub logical: i128, pub drift_bad: bool, pub queues: HashMap<i128, Vec<Vec<u8>>>, pub password: Option<String>, pub ctl_authed: bool }
 
 impl Runner {
-    pub fn new(o: &SrvOpts) -> Runner { Runner { srv: Srv::start(o), conns: HashMap::new(), t0: Instant::now(), logical: 0, drift_bad: false, queues: HashMap::new() } }
+    pub fn new(o: &SrvOpts) -> Runner { Runner { srv: Srv::start(o), conns: HashMap::new(), t0: Instant::now(), logical: 0, drift_bad: false, queues: HashMap::new(), password: o.password.clone(), ctl_authed: false } }
     /// one op; returns (possibly augmented op, output)
     pub fn op(&mut self, op: &[Tok]) -> (Vec<Tok>, Vec<Tok>) {
         let name = tok_bytes(&op[0]).to_vec();
@@ -150,13 +173,13 @@ impl Runner {
                 if el - self.logical > 80 { self.drift_bad = true; }
                 let mut wire = vec![]; req.wire(&mut wire);
                 let nm = req_name(&req);
-                let cl = match self.conns.get_mut(&c) { Some(x) => x, None => return (op.to_vec(), vec![b("NOCONN")]) };
+                let cl = match self.conns.get_mut(&c) { Some(x) => x, None => return (op.to_vec(), vec![b("CLOSED")]) };
                 if !cl.send(&wire) { return (op[..pos].to_vec(), vec![b("CLOSED")]); }
                 let mut newop = op[..pos].to_vec();
                 newop[2] = Tok::I(self.logical);
                 match cl.read(3000) {
                     Rd::Val(v) => {
-                        if RANDOM_CMDS.contains(&&nm[..]) { v.enc(&mut newop); }
+                        if RANDOM_CMDS.contains(&&nm[..]) || nm == b"ZSCAN" { v.enc(&mut newop); }
                         // replies inside an EXEC array are canonicalised by the queued command's name
                         let v = if nm == b"EXEC" {
                             let q = self.queues.remove(&c).unwrap_or_default();
@@ -172,6 +195,72 @@ impl Runner {
                     Rd::Closed => (newop, vec![b("CLOSED")]),
                     Rd::Bad => (newop, vec![b("BADREPLY")]),
                 }
+            }
+            b"SWEEP" | b"SWEEP_GATE" | b"SWEEP_RELEASE" => {
+                // sweeper schedule control through the VERIF hook command on a private control connection
+                let mut newop = vec![op[0].clone(), Tok::I(self.logical)];
+                newop.extend_from_slice(&op[op.len().min(2)..]);
+                if !self.conns.contains_key(&-1) { if let Some(cl) = Client::connect(self.srv.port) { self.conns.insert(-1, cl); } }
+                let pw = self.password.clone();
+                let cl = self.conns.get_mut(&-1).unwrap();
+                let mut ask = |cl: &mut Client, args: &[&[u8]]| -> i64 {
+                    let mut w = vec![]; V::cmd(args).wire(&mut w); cl.send(&w);
+                    match cl.read(2000) { Rd::Val(V::Int(n)) => n, Rd::Val(V::Simple(_)) => 0, _ => -1 }
+                };
+                if let Some(p) = &pw { if !self.ctl_authed { ask(cl, &[b"AUTH", p.as_bytes()]); self.ctl_authed = true; } }
+                let passes0 = ask(cl, &[b"VERIF", b"SWEEP", b"PASSES"]);
+                let wait = |cl: &mut Client, ask: &mut dyn FnMut(&mut Client, &[&[u8]]) -> i64, what: &[u8], target: i64| -> bool {
+                    let t0 = Instant::now();
+                    while t0.elapsed() < Duration::from_millis(2500) {
+                        if ask(cl, &[b"VERIF", b"SWEEP", what]) >= target { return true; }
+                        std::thread::sleep(Duration::from_millis(5));
+                    }
+                    false
+                };
+                // a pass must start at a known model instant: wait until the sweeper is parked at its
+                // wait point, move the logical clock to the next 300 ms grid point not before now, sleep
+                // until then, and only then let it run (it starts within a few ms)
+                let mut ok = true;
+                if &name[..] != b"SWEEP_RELEASE" {
+                    ok = wait(cl, &mut ask, b"WAITING", 1);
+                    let el = self.t0.elapsed().as_millis() as i128;
+                    let grid = ((el + 299) / 300) * 300;
+                    if grid > self.logical { self.logical = grid; }
+                    let target = Duration::from_millis(self.logical as u64);
+                    let now = self.t0.elapsed();
+                    if now < target { std::thread::sleep(target - now); }
+                    newop[1] = Tok::I(self.logical);
+                }
+                let ok2 = match &name[..] {
+                    b"SWEEP" => { ask(cl, &[b"VERIF", b"SWEEP", b"STEP"]); wait(cl, &mut ask, b"PASSES", passes0 + 1) }
+                    b"SWEEP_GATE" => { ask(cl, &[b"VERIF", b"SWEEP", b"GATE"]); ask(cl, &[b"VERIF", b"SWEEP", b"STEP"]); wait(cl, &mut ask, b"ATGATE", 1) }
+                    _ => { ask(cl, &[b"VERIF", b"SWEEP", b"RELEASE"]); wait(cl, &mut ask, b"PASSES", passes0 + 1) }
+                };
+                let ok = ok && ok2;
+                let el = self.t0.elapsed().as_millis() as i128;
+                if el - self.logical > 80 { self.drift_bad = true; }
+                (newop, if ok { vec![] } else { vec![b("SWEEPTIMEOUT")] })
+            }
+            b"RAW" => {
+                // [RAW c t chunk...]: write the chunks 25 ms apart, then collect everything the server
+                // sends until it has been quiet for 150 ms; output = [closed?; reply frames...]
+                let c = tok_int(&op[1]);
+                let mut newop = op.to_vec(); newop[2] = Tok::I(self.logical);
+                let cl = match self.conns.get_mut(&c) { Some(x) => x, None => return (newop, vec![b("CLOSED")]) };
+                for ch in &op[3..] { let _ = cl.send(tok_bytes(ch)); std::thread::sleep(Duration::from_millis(25)); }
+                let mut frames = vec![]; let mut closed = 0; let mut bad = false;
+                loop {
+                    match cl.read(150) {
+                        Rd::Val(v) => frames.push(v),
+                        Rd::Timeout => break,
+                        Rd::Closed => { closed = 1; break; }
+                        Rd::Bad => { bad = true; break; }
+                    }
+                }
+                let mut out = vec![i(closed)];
+                for f in frames { canon(f).enc(&mut out); }
+                if bad { out.push(b("GARBAGE")); }
+                (newop, out)
             }
             _ => (op.to_vec(), vec![b("BADOP")]),
         }
@@ -210,6 +299,10 @@ pub fn cmd_op(conn: i64, args: &[&[u8]]) -> Vec<Tok> {
 pub fn cmd_frame_op(conn: i64, req: &V) -> Vec<Tok> { let mut o = vec![b("CMD"), i(conn), i(0)]; req.enc(&mut o); o }
 pub fn conn_op(conn: i64) -> Vec<Tok> { vec![b("CONN"), i(conn)] }
 pub fn sleep_op(ms: i64) -> Vec<Tok> { vec![b("SLEEP"), i(ms)] }
+pub fn raw_op(conn: i64, chunks: &[Vec<u8>]) -> Vec<Tok> { let mut o = vec![b("RAW"), i(conn), i(0)]; for c in chunks { o.push(bv(c)); } o }
+pub fn sweep_op() -> Vec<Tok> { vec![b("SWEEP"), i(0)] }
+pub fn sweep_gate_op() -> Vec<Tok> { vec![b("SWEEP_GATE"), i(0)] }
+pub fn sweep_release_op() -> Vec<Tok> { vec![b("SWEEP_RELEASE"), i(0)] }
 pub fn close_op(conn: i64) -> Vec<Tok> { vec![b("CLOSE"), i(conn)] }
 pub fn server_op(password: &[u8]) -> Vec<Tok> { vec![b("SERVER"), bv(password)] }
 
